@@ -26,6 +26,7 @@ import (
 	"os"
 	"os/exec"
 	"path/filepath"
+	"sort"
 	"strings"
 	"time"
 )
@@ -63,6 +64,7 @@ func c19(c *Ctx) {
 			mi = 5
 		}
 		c19RunHammer(c, os.Args[0], "c19-mineinsert", "mineinsert", mi, 240*time.Second)
+		c19RunHammer(c, os.Args[0], "c19-restart", "restart", 1, 240*time.Second)
 	}
 	if c.Tier == "thorough" && os.Getenv("VERIF_C19_NORACE") == "" {
 		c19Race(c)
@@ -193,6 +195,13 @@ func c19Facts(c *Ctx) {
 		}
 	}
 	c.Op("access-end", "ok")
+	// calls the call graph cannot follow (function values): a committed list, so that a NEW one is noticed
+	dyn := c19DynCalls()
+	for _, d := range dyn {
+		c.Op(fmt.Sprintf("dyncall %s %d %d", d.fn, d.calls, d.gos), "ok")
+		c.Count("dyncall:function-value-calls-not-followed")
+	}
+	c.Op(fmt.Sprintf("dyncall-end %d", len(dyn)), "ok")
 	for _, k := range order {
 		rs := bad[k]
 		v := k[:strings.Index(k, "/")]
@@ -231,6 +240,10 @@ func c19Kind(entry string) string {
 		return "store"
 	case strings.HasPrefix(entry, "ext:"):
 		return "ext"
+	case strings.HasPrefix(entry, "api:"):
+		return "api"
+	case strings.HasPrefix(entry, "init:"):
+		return "init"
 	}
 	return "engine"
 }
@@ -293,7 +306,7 @@ def Var.ofString? : String → Option Var
 
 /-- the kind of entry point a row is about (the prefix of the entry name) -/
 inductive Kind where
-  | engine | go | timer | store | ext | startup
+  | engine | go | timer | store | ext | api | init | startup
   deriving DecidableEq, Repr
 
 def Kind.ofEntry (e : String) : Kind :=
@@ -302,6 +315,8 @@ def Kind.ofEntry (e : String) : Kind :=
   else if e.startsWith "timer:" then .timer
   else if e.startsWith "store:" then .store
   else if e.startsWith "ext:" then .ext
+  else if e.startsWith "api:" then .api
+  else if e.startsWith "init:" then .init
   else .engine
 
 structure Row where
@@ -338,6 +353,17 @@ def guards : List (Var × String) := [
 	}
 	b.WriteString(`]
 
+/-- functions of the anchored packages that call (second number: start with go / time.AfterFunc) a function VALUE
+    (func-typed variable, parameter or field): the scanner's call graph does not follow these calls; function literals
+    are analysed where they are DEFINED.  The list is compared on every run: a new entry is a table-mismatch. -/
+def dynCalls : List (String × Nat × Nat) := [` + func() string {
+		var q []string
+		for _, d := range c19DynCalls() {
+			q = append(q, fmt.Sprintf("(%q, %d, %d)", d.fn, d.calls, d.gos))
+		}
+		return strings.Join(q, ", ")
+	}() + `]
+
 /-- head reads that are deliberately made before the chain lock is taken (see the header) -/
 def benignPrechecks : List String := [` + func() string {
 		var q []string
@@ -362,4 +388,34 @@ end LemoModel.LockFacts
 		panic(err)
 	}
 	fmt.Println("wrote", filepath.Join(c.Out, "LockFacts.lean"), len(rows), "rows")
+}
+
+type c19Dyn struct {
+	fn         string
+	calls, gos int
+}
+
+func c19DynCalls() []c19Dyn {
+	var out []c19Dyn
+	if c19LastScan == nil {
+		return out
+	}
+	agg := map[string]*c19Dyn{}
+	for _, f := range c19LastScan.all {
+		if !inList(f.pkg, c19Anchored) || (f.dynCalls == 0 && f.dynGo == 0) {
+			continue
+		}
+		d := agg[f.name]
+		if d == nil {
+			d = &c19Dyn{fn: f.name}
+			agg[f.name] = d
+		}
+		d.calls += f.dynCalls
+		d.gos += f.dynGo
+	}
+	for _, d := range agg {
+		out = append(out, *d)
+	}
+	sort.Slice(out, func(i, j int) bool { return out[i].fn < out[j].fn })
+	return out
 }
